@@ -73,6 +73,8 @@ pub fn run(a: &Args) -> ShardOut {
 }
 
 fn history(w: &mut World, rounds: u64, soups: usize) -> Result<(), String> {
+    // members differ in the credential types they support
+    w.p_custom_cred = (1, 2);
     let n0 = w.rng.range(4, 6);
     w.bootstrap(n0, &mut NoHooks)?;
     // one external PSK everybody knows
@@ -130,15 +132,20 @@ struct Item {
     conflict_key: Option<Vec<u8>>,
     /// proposal reference once known (by-reference: from the receipt event)
     bytes: Option<String>,
+    /// for adds: (the newcomer's credential is of the custom type, the newcomer supports the custom type)
+    add_caps: Option<(bool, bool)>,
 }
 
 struct KpMaker {
     bad_names: Vec<Vec<u8>>,
+    /// (custom credential, supports custom credentials) of the key package made last
+    last_caps: (bool, bool),
 }
 
 impl KpMaker {
     /// A key package of a brand-new client. `flavour`: 0 good, 1 other cipher suite,
-    /// 2 credential the application rejects, 3 long expired.
+    /// 2 credential the application rejects, 3 long expired, 4 custom credential type,
+    /// 5 basic credential supporting both types, 6 basic credential supporting only the basic type.
     fn fresh(&mut self, w: &mut World, flavour: u8) -> Option<MlsMessage> {
         let prov = w.cfg.provs[w.rng.below(w.cfg.provs.len())];
         let suite = if flavour == 1 {
@@ -152,7 +159,7 @@ impl KpMaker {
         };
         let cs = crate::anycrypto::AnyCrypto::new(prov).suite(suite)?;
         let (sk, pk) = cs.signature_key_generate().ok()?;
-        let name = format!("{}{}", if flavour == 2 { "bad" } else { "n" }, w.rng.next() % 1_000_000).into_bytes();
+        let name = format!("{}{}", if flavour == 2 { "bad" } else if flavour == 4 { "cc" } else { "n" }, w.rng.next() % 1_000_000).into_bytes();
         if flavour == 2 {
             for p in &w.parties {
                 p.ident.rejected.lock().unwrap().insert(name.clone());
@@ -160,7 +167,16 @@ impl KpMaker {
             self.bad_names.push(name.clone());
         }
         let stores = Stores::new(crate::store::Backend::Mem, 3);
-        let (client, _) = make_client(&name, prov, 997, suite, sk, pk, &stores, &VIdent::default(), w.cfg.rules(), None);
+        let ident = VIdent {
+            custom_ok: match flavour {
+                4 | 5 => true,
+                6 => false,
+                _ => w.rng.chance(1, 2),
+            },
+            ..Default::default()
+        };
+        self.last_caps = (flavour == 4, ident.custom_ok);
+        let (client, _) = make_client(&name, prov, 997, suite, sk, pk, &stores, &ident, w.cfg.rules(), None);
         let ts = (flavour == 3).then(|| MlsTime::from_duration_since_epoch(std::time::Duration::from_secs(1_000_000)));
         guarded(|| client.generate_key_package_message(Default::default(), Default::default(), ts)).ok()?.ok()
     }
@@ -181,7 +197,7 @@ fn unsupported_gce(w: &World) -> ExtensionList {
 
 /// Draw one proposal for the soup. `c` is the committer; `by_ref` the proposer (None = by value).
 #[allow(clippy::too_many_arguments)]
-fn draw(w: &mut World, kp: &mut KpMaker, c: usize, by_ref: Option<usize>, want_offender: bool, timed: bool, reserved: &mut BTreeSet<u32>, harvested_update: &Option<Proposal>) -> Option<Item> {
+fn draw(w: &mut World, kp: &mut KpMaker, c: usize, by_ref: Option<usize>, want_offender: bool, timed: bool, reserved: &mut BTreeSet<u32>, harvested_update: &Option<Proposal>, existing: &[Item]) -> Option<Item> {
     let act = w.active();
     let cleaf = w.leaf_of(c);
     let mk = |kind, offender, act, touches, conflict_key| {
@@ -193,12 +209,37 @@ fn draw(w: &mut World, kp: &mut KpMaker, c: usize, by_ref: Option<usize>, want_o
             touches,
             conflict_key,
             bytes: None,
+            add_caps: None,
         })
     };
     let kp_key = |m: &MlsMessage| m.to_bytes().ok();
     if want_offender {
-        let k = w.rng.below(11);
+        let k = w.rng.below(12);
         match k {
+            11 => {
+                // a credential type that only some members support (valid when all of them do)
+                let all_support = act.iter().all(|m| w.parties[*m].ident.custom_ok);
+                // the members that do not support it must stay (otherwise the add becomes valid,
+                // and a member that is removed by the commit may still refuse to validate it)
+                let lacking: BTreeSet<u32> = act.iter().filter(|m| !w.parties[**m].ident.custom_ok).map(|m| w.leaf_of(*m)).collect();
+                if existing.iter().any(|i| matches!(i.act, Act::Remove(l) if lacking.contains(&l))) {
+                    return None;
+                }
+                reserved.extend(lacking.iter().copied());
+                let m = kp.fresh(w, 4)?;
+                let k = kp_key(&m);
+                mk(
+                    "add_custom_credential",
+                    (!all_support).then_some("credential_type_unsupported_by_a_member"),
+                    Act::Add(m),
+                    None,
+                    k,
+                )
+                .map(|mut i| {
+                    i.add_caps = Some((true, true));
+                    i
+                })
+            }
             0 => {
                 // removal of the committer
                 if by_ref == Some(c) {
@@ -217,12 +258,12 @@ fn draw(w: &mut World, kp: &mut KpMaker, c: usize, by_ref: Option<usize>, want_o
             2 => {
                 let m = kp.fresh(w, 1)?;
                 let k = kp_key(&m);
-                mk("add_other_suite", Some("key_package_wrong_cipher_suite"), Act::Add(m), None, k)
+                mk("add_other_suite", Some("key_package_wrong_cipher_suite"), Act::Add(m), None, k).map(|mut i| { i.add_caps = Some(kp.last_caps); i })
             }
             3 => {
                 let m = kp.fresh(w, 2)?;
                 let k = kp_key(&m);
-                mk("add_rejected_credential", Some("credential_rejected_by_identity_provider"), Act::Add(m), None, k)
+                mk("add_rejected_credential", Some("credential_rejected_by_identity_provider"), Act::Add(m), None, k).map(|mut i| { i.add_caps = Some(kp.last_caps); i })
             }
             4 => {
                 // a key package of somebody who is already in the group (not touched otherwise)
@@ -231,7 +272,11 @@ fn draw(w: &mut World, kp: &mut KpMaker, c: usize, by_ref: Option<usize>, want_o
                 reserved.insert(w.leaf_of(m));
                 let msg = guarded(|| w.parties[m].client.generate_key_package_message(Default::default(), Default::default(), None)).ok()?.ok()?;
                 let k = kp_key(&msg);
-                mk("add_existing_member", Some("duplicate_member_identity"), Act::Add(msg), None, k)
+                let caps = (false, w.parties[m].ident.custom_ok);
+                mk("add_existing_member", Some("duplicate_member_identity"), Act::Add(msg), None, k).map(|mut i| {
+                    i.add_caps = Some(caps);
+                    i
+                })
             }
             5 => {
                 if !timed {
@@ -239,7 +284,7 @@ fn draw(w: &mut World, kp: &mut KpMaker, c: usize, by_ref: Option<usize>, want_o
                 }
                 let m = kp.fresh(w, 3)?;
                 let k = kp_key(&m);
-                mk("add_expired", Some("key_package_lifetime"), Act::Add(m), None, k)
+                mk("add_expired", Some("key_package_lifetime"), Act::Add(m), None, k).map(|mut i| { i.add_caps = Some(kp.last_caps); i })
             }
             6 => {
                 let id = w.rng.bytes(9);
@@ -279,7 +324,7 @@ fn draw(w: &mut World, kp: &mut KpMaker, c: usize, by_ref: Option<usize>, want_o
                 }
                 let m = kp.fresh(w, 0)?;
                 let k = kp_key(&m);
-                mk("add", None, Act::Add(m), None, k)
+                mk("add", None, Act::Add(m), None, k).map(|mut i| { i.add_caps = Some(kp.last_caps); i })
             }
             2 | 3 => {
                 // update (by reference only), from somebody not otherwise touched
@@ -344,6 +389,8 @@ fn check_applied(
     n_by_value: usize,
     offenders: &[(String, &'static str)],
     ctx: &str,
+    add_caps: &BTreeMap<Vec<u8>, (bool, bool)>,
+    member_supports_custom: &BTreeMap<u32, bool>,
 ) {
     let mut touched: BTreeMap<u32, usize> = BTreeMap::new();
     let mut gce = 0;
@@ -352,6 +399,7 @@ fn check_applied(
     let mut psk_ids: BTreeSet<Vec<u8>> = BTreeSet::new();
     let mut removed: BTreeSet<u32> = BTreeSet::new();
     let mut added_names: Vec<Vec<u8>> = vec![];
+    let mut added_caps: Vec<(bool, bool)> = vec![];
     let mut needs_path = applied.is_empty() || w.cfg.path_required;
     let mut by_value = 0;
     let mut bad = |w: &mut World, rule: &str, detail: String| {
@@ -401,6 +449,9 @@ fn check_applied(
             }
             Proposal::Add(a) => {
                 let kb = a.key_package().mls_encode_to_vec().unwrap_or_default();
+                if let Some(c) = add_caps.get(&kb) {
+                    added_caps.push(*c);
+                }
                 if !kps.insert(kb) {
                     bad(w, "duplicate_key_package", "the same key package was added twice".into());
                 }
@@ -446,6 +497,17 @@ fn check_applied(
             bad(w, "duplicate_member_identity", format!("identity {} added although present", String::from_utf8_lossy(n)));
         }
     }
+    // credential types: everybody in the new tree supports the type of every credential in it
+    if added_caps.iter().any(|c| c.0) {
+        if added_caps.iter().any(|c| !c.1) {
+            bad(w, "credential_type_unsupported_by_another_newcomer", "a custom credential was added together with a newcomer that does not support the type".into());
+        }
+        for (l, ok) in member_supports_custom {
+            if !ok && !removed.contains(l) && roster_before.contains_key(l) {
+                bad(w, "credential_type_unsupported_by_a_member", format!("a custom credential was added although the member at leaf {l} stays and does not support the type"));
+            }
+        }
+    }
     if by_value != n_by_value {
         bad(w, "by_value_proposal_not_applied", format!("{by_value} of {n_by_value} by-value proposals applied"));
     }
@@ -460,7 +522,7 @@ fn soup(w: &mut World) -> Result<(), String> {
     let cleaf = w.leaf_of(c);
     let timed = w.rng.chance(1, 4);
     let now = MlsTime::now();
-    let mut kp = KpMaker { bad_names: vec![] };
+    let mut kp = KpMaker { bad_names: vec![], last_caps: (false, false) };
     let r = soup_inner(w, &mut kp, c, cleaf, timed, now);
     kp.cleanup(w);
     r
@@ -507,7 +569,7 @@ fn soup_inner(w: &mut World, kp: &mut KpMaker, c: usize, cleaf: u32, timed: bool
     for _ in 0..n_ref {
         let p = act[w.rng.below(act.len())];
         let off = w.rng.chance(1, 3);
-        if let Some(it) = draw(w, kp, c, Some(p), off, timed, &mut reserved, &harvested_update) {
+        if let Some(it) = draw(w, kp, c, Some(p), off, timed, &mut reserved, &harvested_update, &items) {
             items.push(it);
         }
     }
@@ -518,7 +580,7 @@ fn soup_inner(w: &mut World, kp: &mut KpMaker, c: usize, cleaf: u32, timed: bool
         let others: Vec<usize> = act.iter().copied().filter(|m| Some(*m) != base.by_ref).collect();
         let p2 = others[w.rng.below(others.len())];
         let dup = match &base.act {
-            Act::Update => base.touches.filter(|l| *l != cleaf && w.party_at_leaf(*l) != Some(p2)).map(|l| Item {
+            Act::Update => base.touches.filter(|l| *l != cleaf && w.party_at_leaf(*l) != Some(p2) && !reserved.contains(l)).map(|l| Item {
                 kind: "remove_of_updated_leaf",
                 offender: None,
                 by_ref: Some(p2),
@@ -526,6 +588,7 @@ fn soup_inner(w: &mut World, kp: &mut KpMaker, c: usize, cleaf: u32, timed: bool
                 touches: Some(l),
                 conflict_key: None,
                 bytes: None,
+                add_caps: None,
             }),
             Act::Remove(l) if base.offender.is_none() && w.party_at_leaf(*l) != Some(p2) => Some(Item {
                 kind: "second_remove_of_leaf",
@@ -548,7 +611,7 @@ fn soup_inner(w: &mut World, kp: &mut KpMaker, c: usize, cleaf: u32, timed: bool
     }
     for _ in 0..n_val {
         let off = w.rng.chance(1, 4);
-        if let Some(it) = draw(w, kp, c, None, off, timed, &mut reserved, &harvested_update) {
+        if let Some(it) = draw(w, kp, c, None, off, timed, &mut reserved, &harvested_update, &items) {
             items.push(it);
         }
     }
@@ -609,6 +672,7 @@ fn soup_inner(w: &mut World, kp: &mut KpMaker, c: usize, cleaf: u32, timed: bool
                 touches: None,
                 conflict_key: None,
                 bytes: None,
+                add_caps: None,
             });
             sent.push(Sent {
                 idx: items.len() - 1,
@@ -692,6 +756,11 @@ fn soup_inner(w: &mut World, kp: &mut KpMaker, c: usize, cleaf: u32, timed: bool
         }
         if vals.iter().any(|v| matches!(v.act, Act::ReInit)) && vals.len() > 1 {
             val_invalid = val_invalid.or(Some("reinit_mixed_with_others"));
+        }        // a newcomer with a custom credential next to a newcomer that does not support the type
+        let custom_cred = vals.iter().any(|v| matches!(v.add_caps, Some((true, _))));
+        let lacks_support = vals.iter().any(|v| matches!(v.add_caps, Some((_, false))));
+        if custom_cred && lacks_support {
+            val_invalid = val_invalid.or(Some("credential_type_unsupported_by_another_newcomer"));
         }
     }
     // by-value proposals that collide with by-reference ones: either outcome is defensible
@@ -702,7 +771,9 @@ fn soup_inner(w: &mut World, kp: &mut KpMaker, c: usize, cleaf: u32, timed: bool
                 || matches!(v.act, Act::ReInit)
                 || matches!(r.act, Act::ReInit)
         })
-    }) || (vals.iter().any(|v| matches!(v.act, Act::ReInit)) && !refs.is_empty());
+    }) || (vals.iter().any(|v| matches!(v.act, Act::ReInit)) && !refs.is_empty())
+        || (vals.iter().any(|v| matches!(v.add_caps, Some((true, _)))) && refs.iter().any(|(_, r)| matches!(r.add_caps, Some((_, false)))))
+        || (vals.iter().any(|v| matches!(v.add_caps, Some((_, false)))) && refs.iter().any(|(_, r)| matches!(r.add_caps, Some((true, _)))));
 
     // ---- build
     let vi: Vec<Item> = vals.iter().map(|v| (*v).clone()).collect();
@@ -841,11 +912,20 @@ fn soup_inner(w: &mut World, kp: &mut KpMaker, c: usize, cleaf: u32, timed: bool
     }
     let offenders: Vec<(String, &'static str)> = items.iter().filter_map(|i| i.offender.and_then(|o| i.bytes.clone().map(|b| (b, o)))).collect();
     let ctx = format!(
-        "committer {c} (leaf {cleaf}), by value {:?}, by reference {:?}",
+        "committer {c} (leaf {cleaf}), by value {:?}, by reference {:?}, members (party, leaf, supports custom credentials) {:?}",
         vals.iter().map(|v| v.kind).collect::<Vec<_>>(),
-        refs.iter().map(|(_, r)| (r.kind, r.by_ref)).collect::<Vec<_>>()
+        refs.iter().map(|(_, r)| (r.kind, r.by_ref)).collect::<Vec<_>>(),
+        act.iter().map(|m| (*m, w.leaf_of(*m), w.parties[*m].ident.custom_ok)).collect::<Vec<_>>()
     );
-    check_applied(w, &applied, cleaf, &roster_before, out.contains_update_path, n_by_value, &offenders, &ctx);
+    let caps_by_kp: BTreeMap<Vec<u8>, (bool, bool)> = items
+        .iter()
+        .filter_map(|i| match (&i.conflict_key, i.add_caps) {
+            (Some(k), Some(c)) if k.len() > 4 => Some((k[4..].to_vec(), c)),
+            _ => None,
+        })
+        .collect();
+    let member_supports_custom: BTreeMap<u32, bool> = act.iter().map(|m| (w.leaf_of(*m), w.parties[*m].ident.custom_ok)).collect();
+    check_applied(w, &applied, cleaf, &roster_before, out.contains_update_path, n_by_value, &offenders, &ctx, &caps_by_kp, &member_supports_custom);
     for p in &applied {
         w.out.cov.bump(&format!("applied:{}", class_of(&p.proposal)));
     }
@@ -950,6 +1030,58 @@ fn soup_inner(w: &mut World, kp: &mut KpMaker, c: usize, cleaf: u32, timed: bool
             Err(p) => w.violate(format!("C10|panic|receive|{}", p.chars().take(80).collect::<String>()), p),
         }
     }
+
+    // ---- nothing the filter dropped may leave a trace: the next honest commit (a plain add by
+    // another member) must be accepted by everybody who followed, the previous committer included
+    let followers: Vec<usize> = act
+        .iter()
+        .copied()
+        .filter(|m| clones.get(m).map(|g| g.current_epoch() == clones[&c].current_epoch()).unwrap_or(false))
+        .filter(|m| clones[m].roster().members_iter().any(|x| x.index == clones[m].current_member_index()))
+        .collect();
+    let still_in = |m: usize| clones[&c].roster().members_iter().any(|x| x.signing_identity.signature_key.as_ref() == w.parties[m].pk.as_ref());
+    let followers: Vec<usize> = followers.into_iter().filter(|m| still_in(*m)).collect();
+    if followers.len() >= 2 && followers.contains(&c) {
+        let m2 = *followers.iter().find(|m| **m != c).unwrap();
+        // a newcomer that supports only the basic type, unless a custom credential is now in use
+        let custom_in_use = applied.iter().any(|p| matches!(&p.proposal, Proposal::Add(a) if a.signing_identity().credential.as_basic().is_none()));
+        let Some(newkp) = kp.fresh(w, if custom_in_use { 5 } else { 6 }) else { return Ok(()) };
+        let g2 = clones.get_mut(&m2).unwrap();
+        g2.clear_proposal_cache();
+        let r = guarded(|| g2.commit_builder().add_member(newkp)?.build());
+        let out2 = match r {
+            Ok(Ok(o)) => o,
+            Ok(Err(e)) => {
+                w.violate(
+                    format!("C10|follow_up_commit_cannot_be_built|{}", ek(&format!("{e:?}"))),
+                    format!("member {m2} cannot add a fresh member after the commit of {c}: {e:?}; {ctx}"),
+                );
+                return Ok(());
+            }
+            Err(p) => {
+                w.violate("C10|panic|follow_up_build", p);
+                return Ok(());
+            }
+        };
+        w.out.cov.bump("follow_up_commits");
+        for &m in &followers {
+            if m == m2 {
+                continue;
+            }
+            let g = clones.get_mut(&m).unwrap();
+            g.clear_proposal_cache();
+            let cm = out2.commit_message.clone();
+            match guarded(|| g.process_incoming_message(cm)) {
+                Ok(Ok(ReceivedMessage::Commit(_))) => w.out.cov.bump("follow_up_accepted"),
+                Ok(Ok(_)) => {}
+                Ok(Err(e)) => w.violate(
+                    format!("C10|follow_up_commit_rejected|{}|{}", if m == c { "previous_committer" } else { "receiver" }, ek(&format!("{e:?}"))),
+                    format!("member {m} rejects the plain add committed by {m2} right after the commit of {c}: {e:?}; {ctx}"),
+                ),
+                Err(p) => w.violate("C10|panic|follow_up_receive", p),
+            }
+        }
+    }
     Ok(())
 }
 
@@ -977,7 +1109,7 @@ fn insider(w: &mut World) -> Result<(), String> {
     }
     let c = act[w.rng.below(act.len())];
     let cleaf = w.leaf_of(c);
-    let mut kp = KpMaker { bad_names: vec![] };
+    let mut kp = KpMaker { bad_names: vec![], last_caps: (false, false) };
     let enc = |p: &Proposal| vh::encode_proposal_by_value(p).ok();
     let mut plans: Vec<(&'static str, Vec<Mutation>)> = vec![];
     let other = *act.iter().find(|m| **m != c).unwrap();
